@@ -4,3 +4,4 @@ pub mod scc;
 pub mod trav;
 pub mod paths;
 pub mod opt;
+pub mod misc;
